@@ -41,23 +41,66 @@ import (
 //	oresp <k> <now> ok|err | ohup <k> | ohdown <k> | owork <k> | ostat <k>   ops on the k-th stopped wrapper
 //	vupd <name:variant:f>*              => cfg=name:variant,…;run=name,…  (visitor.Manager.UpdateAll)
 //	live | livebackoff                  => real-time end-to-end scenarios (see code)
+//	race N|C[<name>] <op A> / <op B>    => w=<name>:<N|C[*]>…,…;ra=<res A>;rb=<res B>;a=<phase of the holder's wrapper|->;st=<status>
+//	                                       (see clientRace: op A is started alone with a gate in the transporter that
+//	                                       holds the first NewProxy (N) / CloseProxy (C) just before it goes on the
+//	                                       wire; op B is started on another goroutine while the message is held)
 type capTransporter struct {
 	mu sync.Mutex
 	ev []string
+	// gate (op race): the first message of kind gateKind is held in Send until release is closed
+	armed    bool
+	gateKind string
+	parked   bool
+	held     string
+	release  chan struct{}
 }
 
 func (t *capTransporter) Send(m msg.Message) error {
-	t.mu.Lock()
-	defer t.mu.Unlock()
+	ev := "?"
 	switch x := m.(type) {
 	case *msg.NewProxy:
-		t.ev = append(t.ev, "N"+strings.TrimPrefix(x.ProxyName, "p"))
+		ev = "N" + strings.TrimPrefix(x.ProxyName, "p")
 	case *msg.CloseProxy:
-		t.ev = append(t.ev, "C"+strings.TrimPrefix(x.ProxyName, "p"))
-	default:
-		t.ev = append(t.ev, "?")
+		ev = "C" + strings.TrimPrefix(x.ProxyName, "p")
 	}
+	t.mu.Lock()
+	if t.armed && (ev == t.gateKind || (len(t.gateKind) == 1 && strings.HasPrefix(ev, t.gateKind))) {
+		t.armed, t.parked, t.held = false, true, ev
+		rel := t.release
+		t.mu.Unlock()
+		<-rel // the message is not on the wire yet
+		t.mu.Lock()
+		t.ev = append(t.ev, ev+"*")
+		t.mu.Unlock()
+		return nil
+	}
+	t.ev = append(t.ev, ev)
+	t.mu.Unlock()
 	return nil
+}
+
+func (t *capTransporter) arm(kind string) {
+	t.mu.Lock()
+	defer t.mu.Unlock()
+	t.armed, t.gateKind, t.parked, t.held, t.release = true, kind, false, "", make(chan struct{})
+}
+
+// disarm switches the gate off and lets a held message go.
+func (t *capTransporter) disarm() {
+	t.mu.Lock()
+	defer t.mu.Unlock()
+	t.armed = false
+	if t.release != nil {
+		close(t.release)
+		t.release = nil
+	}
+}
+
+func (t *capTransporter) gateState() (parked bool, held string, n int) {
+	t.mu.Lock()
+	defer t.mu.Unlock()
+	return t.parked, t.held, len(t.ev)
 }
 func (t *capTransporter) Do(ctx context.Context, req msg.Message, laneKey, recvMsgType string) (msg.Message, error) {
 	return nil, fmt.Errorf("not connected")
@@ -95,6 +138,7 @@ type clientState struct {
 	stopped  []*proxy.Wrapper
 	handed   chan struct{}
 	busyLn   net.Listener
+	names    map[string]bool // every proxy name ever configured (for lock-free-of-wrapper snapshots)
 }
 
 var cst *clientState
@@ -111,6 +155,7 @@ func clientReset() {
 		origTaken = true
 	}
 	if cst != nil {
+		cst.tr.disarm()
 		cst.pm.Close()
 		cst.vm.Close()
 		cst.cancel()
@@ -127,7 +172,7 @@ func clientReset() {
 	s := &clientState{cancel: cancel, tr: tr,
 		info: map[v1.ProxyConfigurer]cfgInfo{}, vinfo: map[v1.VisitorConfigurer]int{},
 		lastSend: map[*proxy.Wrapper]int64{}, lastErr: map[*proxy.Wrapper]int64{},
-		handed: make(chan struct{}, 16)}
+		handed: make(chan struct{}, 16), names: map[string]bool{}}
 	s.pm = proxy.NewManager(ctx, common, tr, nil)
 	s.pm.SetInWorkConnCallback(func(*v1.ProxyBaseConfig, net.Conn, *msg.StartWorkConn) bool {
 		s.handed <- struct{}{}
@@ -421,6 +466,7 @@ func clientExec(tok []string) string {
 			f := strings.Split(t, ":")
 			c := buildProxy("p"+f[0], atoi(f[1]))
 			s.info[c] = cfgInfo{atoi(f[1]), s.epoch}
+			s.names["p"+f[0]] = true
 			cfgs = append(cfgs, c)
 		}
 		before := map[*proxy.Wrapper]bool{}
@@ -496,19 +542,18 @@ func clientExec(tok []string) string {
 			s.pm.HandleWorkConn("p"+tok[1], c, m)
 		})
 	case "status":
-		var out []string
-		for _, st := range s.pm.GetAllProxyStatus() {
-			inf, ok := s.info[st.Cfg]
-			if !ok {
-				inf = cfgInfo{-1, -1}
+		return s.statusStr()
+	case "race":
+		sep := -1
+		for i, t := range tok {
+			if t == "/" {
+				sep = i
 			}
-			out = append(out, fmt.Sprintf("%s:%s:%d:%d", strings.TrimPrefix(st.Name, "p"), phaseTok(st.Phase), inf.variant, inf.epoch))
 		}
-		sort.Strings(out)
-		if len(out) == 0 {
-			return "-"
+		if len(tok) < 5 || sep < 3 || sep == len(tok)-1 || (tok[1][:1] != "N" && tok[1][:1] != "C") {
+			return "badop"
 		}
-		return strings.Join(out, ",")
+		return s.race(tok[1], tok[2:sep], tok[sep+1:])
 	case "close":
 		var all []*proxy.Wrapper
 		for _, st := range s.pm.GetAllProxyStatus() {
@@ -575,6 +620,22 @@ func clientExec(tok []string) string {
 		return clientLiveBackoff()
 	}
 	return "badop"
+}
+
+func (s *clientState) statusStr() string {
+	var out []string
+	for _, st := range s.pm.GetAllProxyStatus() {
+		inf, ok := s.info[st.Cfg]
+		if !ok {
+			inf = cfgInfo{-1, -1}
+		}
+		out = append(out, fmt.Sprintf("%s:%s:%d:%d", strings.TrimPrefix(st.Name, "p"), phaseTok(st.Phase), inf.variant, inf.epoch))
+	}
+	sort.Strings(out)
+	if len(out) == 0 {
+		return "-"
+	}
+	return strings.Join(out, ",")
 }
 
 // waitEvent polls the transporter for an event with the given text.
@@ -722,7 +783,8 @@ func clientGen(rng *rand.Rand, n int, emit func(string)) {
 		}
 		return next
 	}
-	emitUpd := func(next []ent) {
+	// fmtUpd renders a reload to `next` (and makes it the current configuration)
+	fmtUpd := func(next []ent) string {
 		// limit the number of updates that create health-checked wrappers
 		creates := false
 		isOld := func(e ent) bool {
@@ -763,9 +825,12 @@ func clientGen(rng *rand.Rand, n int, emit func(string)) {
 			h, r := variantFlags(e.variant)
 			fmt.Fprintf(&sb, " %d:%d:%d:%d", e.name, e.variant, b2i(h), b2i(r))
 		}
-		emit(sb.String())
 		nStopped += len(cur) // upper bound, good enough for picking indices
 		cur = next
+		return sb.String()
+	}
+	emitUpd := func(next []ent) {
+		emit(fmtUpd(next))
 		// the server usually answers the registrations
 		for _, e := range cur {
 			switch rng.Intn(6) {
@@ -774,6 +839,170 @@ func clientGen(rng *rand.Rand, n int, emit func(string)) {
 			case 3:
 				emit(fmt.Sprintf("resp %d %d err", e.name, adv()))
 			}
+		}
+	}
+	// ---- overlapping operations (op race): some goroutine is inside the hand-over of a
+	// registration / withdrawal to the transporter while another operation arrives.
+	// Classes of the held side (A): first registration by a reload, retry after a start error,
+	// resend after the reply time-out, recovery / withdrawal by the health callback, run-failure on
+	// the reply, Stop inside a reload.  Classes of the arriving side (B): reload that removes /
+	// changes / keeps the proxy or is unrelated, Manager.Close, server reply, worker wake-up, health
+	// callback, work connection — for the same proxy mostly, sometimes for another one.
+	variantOf := func(name int) int {
+		v := -1
+		for _, e := range cur {
+			if e.name == name {
+				v = e.variant // the last entry of a name is the configured one
+			}
+		}
+		return v
+	}
+	without := func(name int) []ent {
+		var next []ent
+		for _, e := range cur {
+			if e.name != name {
+				next = append(next, e)
+			}
+		}
+		return next
+	}
+	changed := func(name int) []ent {
+		next := append([]ent(nil), cur...)
+		for i := range next {
+			if next[i].name == name {
+				next[i].variant = (next[i].variant + 1 + rng.Intn(nVariants-1)) % nVariants
+			}
+		}
+		return next
+	}
+	// genB renders the arriving operation for proxy x; AFTER the text of A has been rendered
+	genB := func(x int, allowReload bool) string {
+		other := rng.Intn(5)
+		for tries := 0; tries < 4 && allowReload; tries++ {
+			switch rng.Intn(12) {
+			case 0, 1, 2:
+				return fmtUpd(without(x))
+			case 3, 4:
+				return fmtUpd(changed(x))
+			case 5:
+				return fmtUpd(append([]ent(nil), cur...))
+			case 6:
+				return fmtUpd(genCfgs())
+			case 7:
+				nStopped += len(cur)
+				cur = nil
+				return "close"
+			}
+			break
+		}
+		switch rng.Intn(8) {
+		case 0, 1:
+			return fmt.Sprintf("resp %d %d %s", x, adv(), pick(rng, []string{"ok", "ok", "err"}))
+		case 2:
+			return fmt.Sprintf("tick %d %d", x, adv())
+		case 3:
+			return fmt.Sprintf("tick %d %d", other, adv())
+		case 4:
+			return fmt.Sprintf("hup %d %d", x, adv())
+		case 5:
+			return fmt.Sprintf("hdown %d %d", x, adv())
+		case 6:
+			return fmt.Sprintf("work %d", x)
+		}
+		return fmt.Sprintf("resp %d %d ok", other, adv())
+	}
+	raceHealth := 6 + n/500
+	emitRace := func() {
+		x := rng.Intn(5)
+		if len(cur) > 0 && rng.Intn(6) != 0 {
+			x = cur[rng.Intn(len(cur))].name
+		}
+		var hs, rs []int // health-checked / run-failing proxies
+		for _, e := range cur {
+			h, r := variantFlags(variantOf(e.name))
+			if h {
+				hs = append(hs, e.name)
+			}
+			if r && !h {
+				rs = append(rs, e.name)
+			}
+		}
+		// fresh puts a new wrapper for x (variant v, no health gate) into status `wait start`
+		fresh := func(v int) {
+			next := without(x)
+			next = append(next, ent{x, v})
+			emit(fmtUpd(next))
+		}
+		switch sc := rng.Intn(12); {
+		case sc < 3 || len(cur) == 0:
+			// first registration: the reload adds (or replaces) x without health gate
+			next := without(x)
+			next = append(next, ent{x, rng.Intn(10)})
+			if rng.Intn(3) == 0 {
+				next = append(next, ent{rng.Intn(5), rng.Intn(10)})
+			}
+			a := fmtUpd(next)
+			emit(fmt.Sprintf("race N%d ", x) + a + " / " + genB(x, true))
+		case sc < 6 || (sc < 8 && len(hs) == 0 && raceHealth <= 0):
+			// retry after a start error (30 s) / resend after the reply time-out (20 s)
+			if rng.Intn(3) != 0 {
+				fresh(rng.Intn(10))
+			}
+			step := 20001
+			if rng.Intn(2) == 0 {
+				emit(fmt.Sprintf("resp %d %d err", x, adv()))
+				step = 30001
+			}
+			now += pick(rng, []int{step, step, 60000, step - 2})
+			a := fmt.Sprintf("tick %d %d", x, now)
+			emit(fmt.Sprintf("race N%d ", x) + a + " / " + genB(x, true))
+		case sc < 8:
+			if len(hs) > 0 {
+				x = pick(rng, hs)
+			} else {
+				// a health-checked proxy of its own (its start-up costs 500 ms: limited)
+				raceHealth--
+				maxHealthUpdates++
+				fresh(10 + rng.Intn(3))
+			}
+			if rng.Intn(2) == 0 {
+				// withdrawal: registered and healthy, the failed callback arrives
+				emit(fmt.Sprintf("hup %d %d", x, adv()))
+				if rng.Intn(3) != 0 {
+					emit(fmt.Sprintf("resp %d %d ok", x, adv()))
+				}
+				a := fmt.Sprintf("hdown %d %d", x, adv())
+				emit(fmt.Sprintf("race C%d ", x) + a + " / " + genB(x, true))
+			} else {
+				// recovery: the success callback arrives
+				if rng.Intn(2) == 0 {
+					emit(fmt.Sprintf("hdown %d %d", x, adv()))
+				}
+				a := fmt.Sprintf("hup %d %d", x, adv())
+				emit(fmt.Sprintf("race N%d ", x) + a + " / " + genB(x, true))
+			}
+		case sc < 9:
+			// the server accepts but the local Run() fails: SetRunningStatus sends CloseProxy
+			if len(rs) > 0 && rng.Intn(2) == 0 {
+				x = pick(rng, rs)
+			} else {
+				fresh(13)
+			}
+			a := fmt.Sprintf("resp %d %d ok", x, adv())
+			emit(fmt.Sprintf("race C%d ", x) + a + " / " + genB(x, true))
+		case sc < 11:
+			// Stop inside a reload is the holder
+			var a string
+			if rng.Intn(2) == 0 {
+				a = fmtUpd(without(x))
+			} else {
+				a = fmtUpd(changed(x))
+			}
+			emit(fmt.Sprintf("race C%d ", x) + a + " / " + genB(x, false))
+		default:
+			// unconstrained pair
+			a := fmt.Sprintf("tick %d %d", x, adv())
+			emit("race " + pick(rng, []string{"N", "C"}) + pick(rng, []string{"", strconv.Itoa(x)}) + " " + a + " / " + genB(x, true))
 		}
 	}
 	for i := 0; i < n; i++ {
@@ -812,6 +1041,10 @@ func clientGen(rng *rand.Rand, n int, emit func(string)) {
 				}
 				i++
 			}
+			continue
+		}
+		if rng.Intn(100) < 5 {
+			emitRace()
 			continue
 		}
 		switch r := rng.Intn(100); {
